@@ -151,7 +151,7 @@ def run_property(pid, tier, seed, jobs, only=None, verbose=True):
 
     inflight = 0
     for name in hs:
-        submit(name, queue[name].pop())
+        submit(name, [[]])
         inflight += 1
     timed_out = set()
     while inflight:
